@@ -34,6 +34,13 @@ class Prov:
             self.d = dict(d)
 
 
+class FalsyProv(Prov):
+    """a genuine provider that is falsy (container-like: __len__ == 0)"""
+
+    def __len__(self):
+        return 0
+
+
 class NotProv:
     def __init__(self, d):
         self.d = dict(d)
@@ -93,7 +100,14 @@ def op_hist(*steps: str) -> str:
                 ns[f[1]] = typing.Annotated[np.ndarray, obj]
             elif f[0] == "V":
                 d = parse_scope(f[3])
-                provs[f[1]] = NotProv(d) if f[2] == "bad" else Prov(f[2], d)
+                if f[2] == "bad":
+                    provs[f[1]] = NotProv(d)
+                elif f[2] == "badfalsy":
+                    provs[f[1]] = type("FalsyNotProv", (NotProv,), {"__len__": lambda self: 0})(d)
+                elif f[2] == "falsy":
+                    provs[f[1]] = FalsyProv("fresh", d)
+                else:
+                    provs[f[1]] = Prov(f[2], d)
                 prov_expected[f[1]] = dict(d)
                 ns["PROV_" + f[1]] = provs[f[1]]
             elif f[0] == "S":
